@@ -1286,7 +1286,10 @@ func (d *descendantOverDescendantQuery) Select(t iterator) NodeNavigator {
 				d.posit = 1
 				return d.currentNode
 			}
-			d.moveToFirstChild()
+			if !d.moveToFirstChild() {
+				// A node without children has no descendants to test.
+				continue
+			}
 		} else if !d.moveUpUntilNext() {
 			continue
 		}
